@@ -404,8 +404,23 @@ fn decode_utf8_case(s: &mut Src) -> Case {
         }
         b.extend(bytes::gen_utf8ish(s, 6));
     }
-    let cuts = chunks::gen_cuts(s, b.len());
     let parse = s.chance(64);
+    if parse && s.chance(170) {
+        // markup, so that the parser trees are not trivial: generated HTML or XML text with a few
+        // ill-formed / truncated sequences dropped in
+        let text = match s.below(3) {
+            0 => crate::gen::html::gen_html(s, 14),
+            1 => crate::gen::xml::xml_soup(s, 20),
+            _ => crate::gen::xml::gen_xml(s, 8).text,
+        };
+        b = text.into_bytes();
+        for _ in 0..s.below(4) {
+            let at = s.below(b.len() + 1);
+            let junk: &[u8] = *s.pick(&[&b"\xff"[..], &b"\xc3"[..], &b"\xe2\x82"[..], &b"\xf0\x9f\x98"[..], &b"\x80"[..], &b"\xed\xa0\x80"[..], &b"\xef\xbb\xbf"[..], &b"\xc0\xaf"[..]]);
+            b.splice(at..at, junk.iter().copied());
+        }
+    }
+    let cuts = chunks::gen_cuts(s, b.len());
     Case {
         encoding: "utf8".into(),
         chunks: chunks::apply_cuts(&b, &cuts).iter().map(|c| hex(c)).collect(),
